@@ -712,7 +712,7 @@ def _evaluate(ctx: Ctx, histories: list[dict], tie: bool = True) -> None:
     if not tie:
         return
     # tie A: the driver must accept every label trace (model variant: as the code is, unless F3 is gone)
-    fixed = not f3_seen and not _f3_reproduces(histories, obs_list)
+    fixed = not f3_seen
     ctx.extra["model_variant"] = "fixed" if fixed else "as-is (missing edge ensemble task -> orchestrator)"
     reqs = [["C20.trace", model_cfg(sc, fixed), abstract(obs)] for sc, obs in zip(histories, obs_list)]
     try:
@@ -740,13 +740,6 @@ def _evaluate(ctx: Ctx, histories: list[dict], tie: bool = True) -> None:
                 "started": any(e[1] == "setStarted" for e in obs["log"]), "ready": any(e[1] == "ready" for e in obs["log"])}
         model = {k: fin[k] for k in ("result", "exitAt", "started", "ready")}
         ctx.compare("C20 final state of the run", impl, model, {"history": sc})
-
-
-def _f3_reproduces(histories: list[dict], obs_list: list[dict]) -> bool:
-    for sc, obs in zip(histories, obs_list):
-        if any(sig == F3_SIG for _, sig in oracle(sc, obs)[0]):
-            return True
-    return False
 
 
 def run(ctx: Ctx) -> None:
